@@ -810,16 +810,23 @@ def main(ck):
                 if kind == KINDS[0] and meta.get("prev") is not None:
                     # minimal two-request reproduction on the real code
                     try:
-                        m2 = InMemoryMemoizer()
+                        if mz_kind == "in-memory":
+                            m2, ctor = InMemoryMemoizer(), "InMemoryMemoizer()"
+                        else:
+                            from simaple.container.memoizer import PersistentStorageMemoizer
+                            tmpf = tempfile.mkdtemp(prefix="c20r_")
+                            m2, ctor = PersistentStorageMemoizer(os.path.join(tmpf, "m.json")), "PersistentStorageMemoizer(tmp)"
                         m2.compute_environment(build(kind, meta["prev"]))
                         got = m2.compute_environment(build(kind, cfg)).model_dump(mode="json")
                         exp = build(kind, cfg).get_simulation_environment().model_dump(mode="json")
                         item["two_request_reproduction"] = {
-                            "script": "m = InMemoryMemoizer(); m.compute_environment(P(prev)); "
+                            "script": f"m = {ctor}; m.compute_environment(P(prev)); "
                                       "m.compute_environment(P(cur)) == P(cur).get_simulation_environment()",
                             "holds": got == exp}
                     except Exception as e:  # noqa: BLE001
                         item["two_request_reproduction"] = {"error": type(e).__name__}
+                    if mz_kind != "in-memory":
+                        shutil.rmtree(tmpf, ignore_errors=True)
                 ck.add_failing(item)
 
             if "skipped" not in want:
